@@ -105,6 +105,13 @@ func (fr *Frame) exec(ins ssa.Instruction, st *State, rch Term) {
 		}
 		fr.checkGlobalStore(pl, x, rch)
 		val := fr.value(x.Val)
+		for _, c := range val.C {
+			if strings.HasPrefix(c, "<interior:") || strings.HasPrefix(c, "<local:") {
+				// a pointer into the middle of an object (or to a local cell) has no
+				// value representation in the component memory model
+				unsup("interior pointer stored as a value")
+			}
+		}
 		if _, isArr := pl.Cur.Underlying().(*types.Array); isArr {
 			// whole-array store (zero value / copy): contents become unknown
 			vc.havocElems(pl.Cur.Underlying().(*types.Array).Elem(), fr.elemBase(pl), itoa(pl.Cur.Underlying().(*types.Array).Len()), st, fr)
